@@ -80,17 +80,20 @@ def two_class_single(name, family, c=1, K=2, T=20.0, prios=(0, 1), preempt=False
 # ------------------------------------------------------------------------------------------------
 # shared focused families (used by several properties)
 # ------------------------------------------------------------------------------------------------
-def noserver_upstream_block(tier, fam="F-noserver-block", ps=True, preempt=True):
+def noserver_upstream_block(tier, fam="F-noserver-block", ps=True, preempt=True, only=None):
     """infinite-server / slotted / PS node feeding a full finite node, simultaneous service ends (batches)"""
     K = 2 if tier == "quick" else 3
     out = []
     ups = [("inf", {"c": "inf"}), ("slotted", {"c": {"slotted": {"slots": [1.0, 2.0], "sizes": [2, 2], "capacitated": False, "preempt": False}}}),
            ("slotted-cap-resume", {"c": {"slotted": {"slots": [1.0, 1.5, 3.0], "sizes": [2, 1, 2], "capacitated": True, "preempt": "resume"}}}),
+           ("slotted-cap", {"c": {"slotted": {"slots": [1.0, 1.5, 3.0], "sizes": [2, 2, 1], "capacitated": True, "preempt": False}}}),
            ("ps", {"c": "inf", "ps": True})]
     for name, nk in ups:
         if name == "ps" and not ps:
             continue
         if name == "slotted-cap-resume" and not preempt:
+            continue
+        if only is not None and not any(o in name for o in only):
             continue
         up = dict(nk)
         up.setdefault("cap", None)
@@ -99,6 +102,38 @@ def noserver_upstream_block(tier, fam="F-noserver-block", ps=True, preempt=True)
                            {"A": klass([[0.5, 1.0], None], [[1.0], [2.0, 0.5]], batch=[[2, 1], None],
                                        route=matrix([[0.0, 1.0], [fb, 0.0]]))},
                            K=K, T=9.0, D=(INF if fb == 0.0 else (4 if tier == "quick" else 6)), features=["blocking", name, "ties"]))
+    return out
+
+
+def ageing_priorities(tier, fam="F-ageing"):
+    """three priority levels, timed class changes A -> B -> C (a customer can change priority twice while waiting)"""
+    out = []
+    for pre in (False, "resume"):
+        out.append(cfg("ageing A>B>C preempt=%s" % pre, fam, [node(c=1, preempt=pre, discipline="FIFO") if pre else node(c=1, discipline="FIFO")],
+                       {"A": klass([{"values": [0.5, 0.25], "budget": 3}], [[6.0, 2.0]], prio=2, cct={"B": [0.5, 1.0]}),
+                        "B": klass([None], [[6.0, 2.0]], prio=1, cct={"C": [0.5, 1.5]}),
+                        "C": klass([None], [[6.0, 2.0]], prio=0)},
+                       K=3, T=12.0, D=4 if tier == "quick" else 7, features=["cct", "priorities", "ageing"]))
+    return out
+
+
+def sched_preempt_chain(tier, fam="F-sched-preempt-chain"):
+    """pre-emptive schedule upstream of a chain whose last node is kept full: re-routed / interrupted customers are
+    later blocked and released; a [2,1] schedule leaves an interrupted customer waiting while the only server is held
+    by a blocked one"""
+    out = []
+    for opt in ("reroute", "resume", "restart"):
+        out.append(cfg("chain3 sched %s -> c1 -> full" % opt, fam,
+                       [node(c={"sched": {"numbers": [1, 0], "ends": [2.0, 3.0], "preempt": opt}}), node(c=1), node(c=1, cap=0)],
+                       {"A": klass([{"values": [0.5, 1.5], "budget": 2}, None, {"values": [0.5], "budget": 1}], [[2.0, 1.0], [0.5, 1.0], [4.0, 2.0]],
+                                   route=matrix([[0.0, 1.0, 0.0], [0.0, 0.0, 1.0], [0.0, 0.0, 0.0]]))},
+                       K=2, T=16.0, features=["blocking", "schedule", "preempt_sched"]))
+    for opt in ("resume", "restart", "resample"):
+        out.append(cfg("sched [2,1] %s + block" % opt, fam,
+                       [node(c={"sched": {"numbers": [2, 1], "ends": [2.0, 8.0], "preempt": opt}}), node(c=1, cap=0)],
+                       {"A": klass([{"values": [0.5, 0.25], "budget": 3 if tier == "quick" else 4}, {"values": [0.25], "budget": 1}], [[2.0, 3.0], [6.0, 3.0]],
+                                   route=matrix([[0.0, 1.0], [0.0, 0.0]]))},
+                       K=3, T=16.0, D=5 if tier == "quick" else 8, features=["blocking", "schedule", "preempt_sched"]))
     return out
 
 
